@@ -76,7 +76,12 @@ impl RunVisitor for V16 {
             Err(e) => return soft_fail(Failure::new(format!("C16 {tpl} constructor rejects valid parameters"), format!("{at}: {e:#}"))),
         };
         let audit = Arc::new(Mutex::new(A16 { bounds: spec.tpl.pop_bounds(), is_cro: tpl == "real_cro", tpl, ..Default::default() }));
-        let res = run_observed_auto(&cfg, &problem, spec.seed, EvalKind::Sequential, audit.clone());
+        // one run in four with the shipped parallel evaluator (on the global pool)
+        let eval = if spec.seed % 4 == 3 { EvalKind::Parallel } else { EvalKind::Sequential };
+        if spec.seed % 4 == 3 {
+            self.classes |= 32;
+        }
+        let res = run_observed_auto(&cfg, &problem, spec.seed, eval, audit.clone());
         let a = audit.lock().unwrap();
         let state = match res {
             Ok(s) => s,
@@ -130,7 +135,7 @@ impl Check for TemplateCheck {
         format!("C16/{}", TEMPLATE_NAMES[self.0])
     }
     fn classes(&self) -> &'static [&'static str] {
-        &["iterations >= 3", "dimension 1", "single-solution / minimum-size population", "zero iterations", "composite termination condition (target on the best value / optimum reached)"]
+        &["iterations >= 3", "dimension 1", "single-solution / minimum-size population", "zero iterations", "composite termination condition (target on the best value / optimum reached)", "parallel evaluator"]
     }
     fn oracle(&self, spec: &RunSpec) -> Outcome {
         let mut v = V16 { classes: 0 };
